@@ -289,9 +289,9 @@ def norm(t):
 
 def unpack(n):
     """inverse of the Coq `pack`: (member V, holds (None/bool) as ("Some", b) or None, (in Np, in Nn), (clauses), guard)"""
-    bits = [(n >> k) & 1 == 1 for k in range(9)]
+    bits = [(n >> k) & 1 == 1 for k in range(10)]
     holds = ("Some", bits[1]) if bits[2] else None
-    return (bits[0], holds, (bits[3], bits[4]), (bits[5], bits[6], bits[7]), bits[8])
+    return (bits[0], holds, (bits[3], bits[4]), (bits[5], bits[6], bits[7], bits[8]), bits[9])
 
 
 def model_lit(t):
@@ -837,13 +837,13 @@ ATOM_LITS = [("none",), ("bool", True), ("bool", False), ("int", 0), ("int", 1),
              ("enum", "E", 0), ("enum", "E", 1), ("enum", "IE", 0), ("enum", "IE", 1), ("float", 0), ("float", 3)]
 SINGLETON_LITS = [("none",), ("bool", True), ("bool", False), ("enum", "E", 0), ("enum", "E", 1), ("enum", "IE", 1),
                   ("class", "B"), ("class", "int"), ("class", "A"), ("inst", "A", 0), ("inst", "Falsy", 0), ("inst", "AC", 0)]
-CLS_FOR_TYPED = ["object", "int", "bool", "float", "complex", "str", "tuple", "NoneType", "type", "A", "B", "C", "Falsy", "AC", "E", "IE"]
+CLS_FOR_TYPED = ["object", "int", "bool", "float", "complex", "str", "tuple", "NoneType", "type", "A", "B", "C", "Falsy", "AC", "E", "IE", "EnumMeta"]
 TUPLES = [(), ((False, "int"),), ((False, "int"), (False, "str")), ((True, "int"),), ((False, "str"), (True, "int")), ((False, "any"), (False, "none"), (False, "bool"))]
 
 
 def all_svals():
     out = [(("any",), ())]
-    out += [(("known", l), ()) for l in ATOM_LITS + [("inst", "A", 0), ("inst", "Falsy", 0), ("class", "B"), ("class", "int"), ("tuple", ()), ("tuple", (("int", 1), ("str", "a")))]]
+    out += [(("known", l), ()) for l in ATOM_LITS + [("inst", "A", 0), ("inst", "Falsy", 0), ("class", "B"), ("class", "int"), ("class", "E"), ("class", "IE"), ("tuple", ()), ("tuple", (("int", 1), ("str", "a")))]]
     out += [(("typed", c), ()) for c in CLS_FOR_TYPED]
     out += [(("sub", c), ()) for c in ["object", "int", "float", "A", "B", "C", "AC", "E", "type"]]
     out += [(("tuple", t), ()) for t in TUPLES]
@@ -853,7 +853,7 @@ def all_svals():
 
 def all_leaves():
     out = [("truthy",)]
-    for cs in [("int",), ("float",), ("complex",), ("bool",), ("str",), ("tuple",), ("A",), ("B",), ("C",), ("Falsy",), ("AC",), ("E",), ("IE",), ("object",), ("type",), ("NoneType",),
+    for cs in [("int",), ("float",), ("complex",), ("bool",), ("str",), ("tuple",), ("A",), ("B",), ("C",), ("Falsy",), ("AC",), ("E",), ("IE",), ("object",), ("type",), ("NoneType",), ("EnumMeta",),
                ("int", "str"), ("A", "C"), ("float", "NoneType"), ("B", "Falsy"), ("tuple", "str")]:
         out.append(("isinstance", cs))
     for cs in [("A",), ("C",), ("int",), ("float",), ("object",), ("A", "C"), ("B", "int"), ("E",), ("type",)]:
@@ -928,6 +928,7 @@ FINDINGS = {
     "promotion_negative": "C02-promotion-negative",
     "subclass_bool": "C02-subclass-bool",
     "multiple_inheritance": "C02-multiple-inheritance",
+    "enum_class_object": "C02-enum-class-literal",
 }
 COQ_HEADER = ("From Coq Require Import ZArith List Bool NArith. Import ListNotations.\n"
               "Require Import PV.Narrow.Base PV.Narrow.Model PV.Narrow.Guards.\n"
@@ -1009,8 +1010,8 @@ def run(tier: str, replay: str | None = None):
                 "(Np, Nn, boolab_of V, map (fun (oi : obj * (bool * bool * bool)) => let '(o, (sb, mi, wf)) := oi in pack "
                 "[member o V; match holds c o with Some b => b | None => false end; "
                 "match holds c o with Some _ => true | None => false end; "
-                "member o Np; member o Nn; promotion_negative c o; sb; mi; "
-                "wf && cond_ok c o && negb mi && negb sb && negb (promotion_negative c o)]) UNIV_INFO))"
+                "member o Np; member o Nn; promotion_negative c o; sb; mi; enum_class_object o; "
+                "wf && cond_ok c o && negb mi && negb sb && negb (promotion_negative c o) && negb (enum_class_object o)]) UNIV_INFO))"
             )
         try:
             model = norm(lib.coq_eval(COQ_HEADER + ulist, terms, name="c02", shard=150, jobs=6))
@@ -1120,7 +1121,7 @@ def run(tier: str, replay: str | None = None):
         attributed = None
         if model is not None and kind in ("lost", "always_true_wrong"):
             mo = unpack(model[i][3][j])
-            clauses = dict(zip(("promotion_negative", "subclass_bool", "multiple_inheritance"), mo[3]))
+            clauses = dict(zip(("promotion_negative", "subclass_bool", "multiple_inheritance", "enum_class_object"), mo[3]))
             if kind == "lost":
                 impl_out = api[i][0 if pol else 1] if rname == "api" else e2e[i][0 if pol else 1]
                 mout = model_value(model[i][0 if pol else 1])
